@@ -37,6 +37,8 @@ Record case := mk_case {
   c_oracle : list (list N * option N);
   c_rows : list row;                    (* new commits in index order; row j is commit (#originals + j) *)
   c_keep : list (N * N);                (* (original commit, its final version): trees must be identical *)
+  c_keep_side : list (N * N);           (* the same for merge descendants one of whose OTHER parents (outside the
+                                           source's line) was rewritten to a different tree *)
   c_what : N                            (* 0 squash, 1 absorb, 2 split, 3 squash of a selection out of a conflicted source *)
 }.
 
@@ -103,7 +105,18 @@ Definition out_of_statement (c : case) : bool := N.eqb (c_what c) 3.
 Definition okb (c : case) : bool :=
   let t := ext_table c (length (c_rows c)) in
   forallb (fun r => match r_tree r with Some _ => true | None => false end) (c_rows c)
-  && (out_of_statement c || forallb (kept_ok t) (c_keep c)).
+  && (out_of_statement c || forallb (kept_ok t) (c_keep c) && forallb (kept_ok t) (c_keep_side c)).
+
+(** Known-finding class "merge descendant with a rewritten side parent": the only kept
+    commits whose tree changed are merge descendants of the source with another parent,
+    outside the source's line, that was itself rewritten to a different tree (a side branch
+    below a commit that received changes); every other kept commit has its tree. *)
+Definition known_class (c : case) : bool :=
+  let t := ext_table c (length (c_rows c)) in
+  forallb (fun r => match r_tree r with Some _ => true | None => false end) (c_rows c)
+  && negb (out_of_statement c)
+  && forallb (kept_ok t) (c_keep c)
+  && negb (forallb (kept_ok t) (c_keep_side c)).
 
 Fixpoint first_bad_row (c : case) (k : nat) (rows : list row) : N :=
   match rows with
@@ -115,4 +128,4 @@ Fixpoint first_bad_row (c : case) (k : nat) (rows : list row) : N :=
     100 when only the property checker objects. *)
 Definition check_case (c : case) : N :=
   let bad := first_bad_row c 0 (c_rows c) in
-  verdict (N.eqb bad 0) (okb c) false (if N.eqb bad 0 then 100 else bad).
+  verdict (N.eqb bad 0) (okb c) (known_class c) (if N.eqb bad 0 then 100 else bad).
